@@ -4,7 +4,7 @@ TRUSTED = [
     "Go runtime: sync.Mutex, sync.Cond (Wait = atomic unlock-and-park; Signal/Broadcast make the woken goroutines runnable before returning), context, goroutine scheduling fairness",
     "the per-wait helper goroutine `go func(){ <-ctx.Done(); mu.Lock(); cond.Broadcast(); mu.Unlock() }()` (locked since fixes_pending/C07-helper-broadcast-locked.diff) is modelled as a broadcast performed at the cancellation / at the return of waitForNew, ordered with the critical sections; the unlocked variant's race is analysed in Conc/Monitor.v (C07/C14), not here",
     "harness: quiescence is read from the runtime's goroutine status (sync.Cond.Wait) after every driver operation has returned; yield hook pubsub.Queue.Producer.unlocked (build tag verif)",
-    "user values are plain int64; the tracker is the unlimited one in the model (the iterators never read the tracker)",
+    "user values are plain int64; tracker.add()'s accept/reject verdict is an input of the model's step (LAdd / LAddRej): the tracker arithmetic is C05's model, the iterators never read the tracker",
 ]
 ASSUMPTIONS = [
     "Queue theorems: any number of iterators, any schedule of the modelled atomic segments (S0, S1, unlocked window, waitForNew entry/re-check, S3) interleaved with Add/Remove/Close/cancel; 'not blocked' is stated for Parked (no pending wake), i.e. at quiescence",
@@ -21,6 +21,6 @@ LEVEL_TEXT = ("Machine-checked Coq theorems about a code-level model of Queue.Pr
               "and ends with EOF after Close; Deque iterators never panic or invent, follow container order absent removals and the non-blocking ones end at the end.")
 LEVEL_NOTE = ("Partial in DESIGN.md's sense: the theorems quantify over all interleavings of the MODELLED atomic segments; sync.Mutex/sync.Cond/context and "
               "scheduler fairness are modelled, not verified, and 'promptly' is read as 'not parked at quiescence'. Correspondence is schedule-directed differential "
-              "testing on the real code (about 11k schedules quick).")
+              "testing on the real code (about 15k schedules quick, incl. bounded queues with rejected Adds and cancellation placed between the ctx check and cond.Wait).")
 TECHNIQUE = "Coq proof (inductive invariants over a transition system with unboundedly many iterator threads) + vm_compute correspondence on yield-hook schedules of the real iterators"
 DRIVER_TIMEOUT = {"quick": 900, "thorough": 6000}
